@@ -1,35 +1,39 @@
 (* Conversions between text / zarith integers and the datatypes extracted from Coq
    (nat, positive, N, Z stay the extracted inductive types; no Extract Constant). *)
+(* zarith's Z is captured BEFORE `open Model`: an extracted model that uses Coq's Z library
+   contains a module named Z which would shadow it. Drivers use ZT (or Zt) for zarith. *)
+module ZT = Z
+module Zt = Z
 open Model
 
-let rec pos_of_zt (x : Z.t) : positive =
-  if Z.equal x Z.one then XH
-  else if Z.is_even x then XO (pos_of_zt (Z.shift_right x 1))
-  else XI (pos_of_zt (Z.shift_right x 1))
+let rec pos_of_zt (x : ZT.t) : positive =
+  if ZT.equal x ZT.one then XH
+  else if ZT.is_even x then XO (pos_of_zt (ZT.shift_right x 1))
+  else XI (pos_of_zt (ZT.shift_right x 1))
 
-let rec zt_of_pos (p : positive) : Z.t =
+let rec zt_of_pos (p : positive) : ZT.t =
   match p with
-  | XH -> Z.one
-  | XO q -> Z.shift_left (zt_of_pos q) 1
-  | XI q -> Z.succ (Z.shift_left (zt_of_pos q) 1)
+  | XH -> ZT.one
+  | XO q -> ZT.shift_left (zt_of_pos q) 1
+  | XI q -> ZT.succ (ZT.shift_left (zt_of_pos q) 1)
 
-let n_of_zt (x : Z.t) : n = if Z.sign x <= 0 then N0 else Npos (pos_of_zt x)
-let zt_of_n (x : n) : Z.t = match x with N0 -> Z.zero | Npos p -> zt_of_pos p
-let z_of_zt (x : Z.t) : z =
-  if Z.sign x = 0 then Z0 else if Z.sign x > 0 then Zpos (pos_of_zt x) else Zneg (pos_of_zt (Z.neg x))
-let zt_of_z (x : z) : Z.t = match x with Z0 -> Z.zero | Zpos p -> zt_of_pos p | Zneg p -> Z.neg (zt_of_pos p)
+let n_of_zt (x : ZT.t) : n = if ZT.sign x <= 0 then N0 else Npos (pos_of_zt x)
+let zt_of_n (x : n) : ZT.t = match x with N0 -> ZT.zero | Npos p -> zt_of_pos p
+let z_of_zt (x : ZT.t) : z =
+  if ZT.sign x = 0 then Z0 else if ZT.sign x > 0 then Zpos (pos_of_zt x) else Zneg (pos_of_zt (ZT.neg x))
+let zt_of_z (x : z) : ZT.t = match x with Z0 -> ZT.zero | Zpos p -> zt_of_pos p | Zneg p -> ZT.neg (zt_of_pos p)
 
-let n_of_int (i : int) : n = n_of_zt (Z.of_int i)
-let int_of_n (x : n) : int = Z.to_int (zt_of_n x)
-let z_of_int (i : int) : z = z_of_zt (Z.of_int i)
-let int_of_z (x : z) : int = Z.to_int (zt_of_z x)
+let n_of_int (i : int) : n = n_of_zt (ZT.of_int i)
+let int_of_n (x : n) : int = ZT.to_int (zt_of_n x)
+let z_of_int (i : int) : z = z_of_zt (ZT.of_int i)
+let int_of_z (x : z) : int = ZT.to_int (zt_of_z x)
 let rec nat_of_int (i : int) : nat = if i <= 0 then O else S (nat_of_int (i - 1))
 let rec int_of_nat (x : nat) : int = match x with O -> 0 | S k -> 1 + int_of_nat k
 
-let n_of_string s = n_of_zt (Z.of_string s)
-let z_of_string s = z_of_zt (Z.of_string s)
-let string_of_n x = Z.to_string (zt_of_n x)
-let string_of_z x = Z.to_string (zt_of_z x)
+let n_of_string s = n_of_zt (ZT.of_string s)
+let z_of_string s = z_of_zt (ZT.of_string s)
+let string_of_n x = ZT.to_string (zt_of_n x)
+let string_of_z x = ZT.to_string (zt_of_z x)
 
 (* byte strings travel as lower-case hex, "-" for empty; in the model they are list N *)
 let bytes_of_hex (s : string) : n list =
